@@ -10,7 +10,8 @@ from .common import guarded_take, A, MEM, checkpoint_typestate, queue_ends, wait
 
 EXPLANATION = ("Memory object streams: exactly-once placement in send_nowait, exactly-once take in receive_nowait, bounded buffer appends, "
                "FIFO queue ends of buffer/waiting_senders/waiting_receivers, register/deregister pairing of blocked send/receive, "
-               "hand-off only to receivers without pending cancellation, wake-up not overtaken by cancellation delivery.")
+               "hand-off only to receivers without pending cancellation, wake-up not overtaken by cancellation delivery."
+               " The pending-cancellation verdict is about the snapshot's own task and that task's current scope, and the scope-chain walk behind it honours every shield on the way.")
 NOT_DECIDED = "Multi-party histories and schedules; the rules are per-call structural necessary conditions."
 
 BUF = "self._state.buffer"
